@@ -8,7 +8,7 @@ from ..cfg import NORMAL, Node
 from ..core import Ctx
 from ..flow import ALL, find_path, names_in
 from ..model import AnalysisError, FunctionInfo, dotted, norm_text
-from .common import edge_target, effective_test, eval3, kwarg, path_arg, reachable_from, str_consts
+from .common import edge_target, effective_test, handler_exits, null_edges, eval3, kwarg, path_arg, reachable_from, str_consts
 
 EXPLANATION = (
     "Static analysis of the in-flight marker protocol: (R1) dominance + def-use: every write of a data file, manifest "
@@ -59,12 +59,21 @@ def r1(ctx: Ctx, rid: str) -> None:
     for q in ("file_manager.FileManager.create_manifest_file", "file_manager.FileManager.create_manifest_list_file"):
         f = ctx.fn(q)
         fg = ctx.cfg(f)
-        hooks = [n for n in fg.calls() if n.callee is not None and n.callee.kind == "param" and n.callee.name == "pre_write_hook"]
+        # calls of THIS function's own pre_write_hook parameter (directly, or through a helper the parameter was forwarded to:
+        # the callable's reaching definitions lead back to the parameter - a helper's defaulted `=None` does not)
+        fsl = ctx.slicer(f)
+        hooks = []
+        for n in fg.calls():
+            if not (isinstance(n.ast, ast.Call) and isinstance(n.ast.func, ast.Name)):
+                continue
+            if n.callee is None or n.callee.kind != "param":
+                continue
+            if n.ast.func.id == "pre_write_hook" or "pre_write_hook" in fsl.origins(n.ast.func, n.id)["params"]:
+                hooks.append(n)
         writes = ctx.calls(f, storage="write_file")
         if not writes:
             raise AnalysisError(f"no storage write in {q}")
-        guard_false = {(b.id, d) for b in fg.nodes if b.kind == "branch" and "pre_write_hook" in b.text
-                       for d, l in fg.succ[b.id] if l == ("false" if "is not None" in b.text else "true")}
+        guard_false = null_edges(fg, "pre_write_hook")
         for w in writes:
             pv = names_in(path_arg(w))
             same = [h for h in hooks if isinstance(h.ast, ast.Call) and h.ast.args and names_in(h.ast.args[0]) & pv]
@@ -335,6 +344,31 @@ def r_honoured(ctx: Ctx, rid: str) -> None:
            "with a non-empty string payload every return derives from it (the legacy data/<basename> convention is only the "
            "fallback): manifests and manifest lists of a commit in progress are protected under their own paths"
            + (" [guard not evaluable: undecided]" if undecided else ""))
+
+
+def marker_parse_tolerant(ctx: Ctx, rid: str) -> None:
+    """C03: a writer that dies between creating a marker file and writing its payload leaves an empty / truncated marker."""
+    ctx.rule(rid, "recovery tolerates leftover markers: a marker whose payload cannot be parsed (empty file of a writer that died "
+             "mid-write, legacy marker) resolves to the legacy target - it never aborts every later collection", 1)
+    mt = ctx.fn(GC + "._marker_target")
+    g = ctx.cfg(mt)
+    parses = ctx.calls(mt, prim="json.loads")
+    if not parses:
+        raise AnalysisError("_marker_target no longer parses the marker payload with json.loads")
+    for p in parses:
+        esc, caught = ctx.eff.propagate(mt, {"ValueError"}, p.frames, record=False)
+        ok = not esc and bool(caught)
+        for h, _c in caught:
+            hn = next((x for x in g.nodes if x.kind == "handler" and x.ast is h), None)
+            if hn is None:
+                ok = False
+                continue
+            ex = handler_exits(ctx, mt, hn)
+            if ex["raise"] or not ex["return"]:
+                ok = False
+        ctx.ob(rid, mt, "an unparseable payload falls back (does not raise)", p, ok,
+               "json.loads / decode errors are handled by returning the legacy data/<basename> target; raising here makes every "
+               "later garbage_collect() abort on the leftover of one dead writer")
 
 
 def r4(ctx: Ctx) -> None:
